@@ -196,6 +196,11 @@ func (j *Joe) Shutdown(ctx context.Context) (err error) {
 }
 
 func (j *Joe) removeSubscriber(sub subscriber) {
+	if _, ok := j.subscribers[sub]; !ok {
+		// Already removed (and closed) because its client failed; the unsubscription
+		// that races with that removal must not close the channel a second time.
+		return
+	}
 	delete(j.subscribers, sub)
 	close(sub)
 }
